@@ -2,7 +2,7 @@
 use crate::instr::{self, wrap, InstrBank, Role, TxInstr};
 use cosmwasm_std::testing::mock_env;
 use cosmwasm_std::{
-    Addr, BlockInfo, Coin, Empty, Event, Order, Storage, Timestamp, Uint128,
+    Addr, BlockInfo, Coin, Empty, Event, Order, Timestamp, Uint128,
 };
 use cw20::{BalanceResponse, Cw20Coin, Cw20ExecuteMsg, Cw20QueryMsg, MinterResponse};
 use cw_multi_test::{App, AppBuilder, Contract, ContractWrapper, Executor};
